@@ -27,7 +27,11 @@ var (
 		"append", "cap", "clear", "close", "complex", "copy", "delete", "imag", "len",
 		"make", "max", "min", "new", "panic", "print", "println", "real", "recover",
 	}
-	goReservedKeywords = [25]string{
+	// generatorLocalIdentifiers are the local names the generated code itself introduces
+	// (errgroup, the range variable of channel loops, the zero value of error returns).
+	// They are reserved so that no provided value is given one of these names.
+	generatorLocalIdentifiers = [3]string{"eg", "ch", "zero"}
+	goReservedKeywords        = [25]string{
 		"break", "default", "func", "interface", "select",
 		"case", "defer", "go", "map", "struct",
 		"chan", "else", "goto", "package", "switch",
